@@ -52,6 +52,28 @@ def _inject(rng, xs, kinds, p):
     return xs
 
 
+def _inject_nd(rng, xs, shape, d, p):
+    """with probability p put +-inf / NaN at the first index, the last index or the interior of an axis
+    (preferring an enlarged axis: the clamped tail must repeat a non-finite last pixel)"""
+    if not xs or rng.random() >= p:
+        return xs
+    nd = len(shape)
+    for _ in range(rng.choice([1, 1, 2])):
+        enl = [k for k in range(nd) if d[k] > shape[k]]
+        k = rng.choice(enl) if enl and rng.random() < 0.8 else rng.randrange(nd)
+        idx = [rng.randrange(n) for n in shape]
+        where = rng.choice(['last', 'last', 'first', 'interior'])
+        if where == 'last':
+            idx[k] = shape[k] - 1
+        elif where == 'first':
+            idx[k] = 0
+        flat = 0
+        for n, j in zip(shape, idx):
+            flat = flat * n + j
+        xs[flat] = rng.choice([float('inf'), float('inf'), float('-inf'), float('nan')])
+    return xs
+
+
 def _flag(value, form):
     """an option given as bool, int or numpy bool"""
     return {'bool': bool(value), 'int': int(bool(value)), 'npbool': np.bool_(value)}[form or 'bool']
@@ -210,6 +232,10 @@ class C14(Check):
                    'integer dtypes without /SAMPLE: each axis may return any integer within 1 (inclusive) of the exact '
                    'rational value (DESIGN C14), propagated as intervals across axes; copies (unchanged axis, '
                    'clamped tail beyond the last sample, output pixel 0) are exact',
+                   'interpolating / averaging rebin on +-inf / NaN: claimed are copies (unchanged axis, the '
+                   'clamped tail at or beyond the last input pixel), values between two finite pixels, all-finite blocks and '
+                   'blocks with infinities of one sign; positions between or exactly on a finite and a non-finite pixel are '
+                   'not judged (the clean code gives NaN there: rebin([1, inf, 3], (6,)) -> [nan, inf, nan, nan, 3, 3])',
                    'NaN is left out of median / uniq inputs (IDL treats NaN as missing in MEDIAN; NaN != NaN makes "equal runs" '
                    'ambiguous) and non-finite values out of interpolating / averaging rebin (0*inf at a sample position is not '
                    'fixed by the property); where they are used the expected value is the IEEE result of the defining formula',
@@ -231,6 +257,10 @@ class C14(Check):
                          'smooth_finite_windows_next_to_nonfinite_values', 'smooth_width_0',
                          'median_inputs_with_infinities', 'run_inputs_with_infinities', 'rebin_sample_nonfinite_inputs',
                          'rebin_sample_bool_inputs', 'flag_given_as_int_or_numpy_bool',
+                         'rebin_nonfinite_interpolating_calls', 'rebin_infinite_last_pixel_of_enlarged_axis',
+                         'rebin_nonfinite_first_pixel_of_enlarged_axis', 'rebin_nonfinite_interior_pixel_of_enlarged_axis',
+                         'rebin_nonfinite_input_on_shrunk_axis', 'rebin_outputs_fixed_to_a_nonfinite_value',
+                         'rebin_finite_outputs_beside_nonfinite_input',
                          'rebin_shrink_factor_ge_49', 'rebin_expand_factor_ge_49', 'rebin_factor_ge_49_in_2d_or_3d',
                          'rebin_factor_ge_49_integer_dtype', 'rebin_shrink_by_float_fragile_factor_sample',
                          'rebin_shrink_by_float_fragile_factor_mean', 'rebin_valueerror_nonintegral_sizes_ge_49',
@@ -333,6 +363,9 @@ class C14(Check):
         if cls == 'stale_sequence':
             return self._gen_sequence(rng, i)
         case = self._gen_base(cls, rng, i)
+        if (cls in ('rebin_fragile', 'rebin_grid1d', 'rebin_bigfactor') and case['dtype'][0] == 'f'
+                and not case['sample']):
+            case['x'] = _inject_nd(rng, case['x'], case['shape'], case['d'], 0.2)
         self._add_layout(case, rng)
         return case
 
@@ -412,6 +445,8 @@ class C14(Check):
             shape, d, modes = self._geometry(rng, i)
             sample = rng.random() < 0.35
             x = _floats(rng, _prod(shape), dt, rng.choice(['normal', 'normal', 'ramp', 'spiky', 'ties']))
+            if not sample:
+                x = _inject_nd(rng, x, shape, d, 0.25)
             if sample:                                   # pure selection: defined for every value and dtype
                 x = _inject(rng, x, ['+inf', '-inf', 'nan'], 0.3)
                 if rng.random() < 0.1:
@@ -597,6 +632,8 @@ class C14(Check):
                     d.append(base * f if m == 'E' else base)
                 dt = rng.choice(['f8', 'f8', 'f4', 'i4', 'u1', 'i2'])
                 x = _ints(rng, _prod(shape), dt) if dt[0] in 'iu' else _floats(rng, _prod(shape), dt, 'normal')
+                if dt[0] == 'f' and ch != 'S':
+                    x = _inject_nd(rng, x, shape, d, 0.2)
                 calls.append(self._add_layout({'fn': 'rebin', 'dtype': dt, 'shape': shape, 'd': d, 'modes': '',
                                                'sample': ch == 'S', 'x': x}, rng))
             return {'fn': 'sequence', 'kind': kind, 'pair': [n0, n0 * fac], 'calls': calls}
@@ -1100,6 +1137,46 @@ class C14(Check):
                 elif d[k] < x0.shape[k]:
                     out.count('rebin_sample_shrink_axes')
             allowed = None
+        elif dt[0] == 'f' and _nonfinite(case['x']):
+            # +-inf / NaN inputs: judge exactly what edge-clamped interpolation / block averaging fixes
+            ref, known = R.rebin_float_claims(x0, d)
+            fin0 = np.isfinite(x0)
+            mag = float(np.max(np.abs(x0[fin0]))) if fin0.any() else 0.0
+            g = np.asarray(r).astype(np.longdouble)
+            reffin = np.isfinite(ref)
+            with np.errstate(invalid='ignore'):
+                bad_fin = known & reffin & ~(np.abs(g - ref) <= TOL[dt] * mag)
+                bad_non = known & ~reffin & ~_eqnan(g, ref)
+            b = _first_bad(bad_fin)
+            out.expect(b is None, 'rebin-float-beside-nonfinite',
+                       'output computed from finite pixels only must not be affected by a non-finite pixel elsewhere '
+                       '(layout %s): first wrong element %s got %r expected %r' % (
+                           lay, b, r[tuple(b)].item() if b else None, float(ref[tuple(b)]) if b else None),
+                       shape=case['shape'], d=list(d))
+            b = _first_bad(bad_non)
+            out.expect(b is None, 'rebin-nonfinite-copy',
+                       'edge clamp / copy / one-signed block: the output must be the non-finite value itself '
+                       '(layout %s): first wrong element %s got %r expected %r' % (
+                           lay, b, r[tuple(b)].item() if b else None, float(ref[tuple(b)]) if b else None),
+                       shape=case['shape'], d=list(d))
+            out.count('rebin_nonfinite_interpolating_calls')
+            out.count('rebin_outputs_fixed_to_a_nonfinite_value', int((known & ~reffin).sum()))
+            out.count('rebin_finite_outputs_beside_nonfinite_input', int((known & reffin).sum()))
+            out.count('rebin_outputs_without_claim', int((~known).sum()))
+            for k in range(x0.ndim):
+                if d[k] > x0.shape[k]:
+                    xa = np.moveaxis(x0, k, 0)
+                    if not np.isfinite(xa[-1]).all():
+                        out.count('rebin_nonfinite_last_pixel_of_enlarged_axis')
+                        if np.isinf(xa[-1]).any():
+                            out.count('rebin_infinite_last_pixel_of_enlarged_axis')
+                    if not np.isfinite(xa[0]).all():
+                        out.count('rebin_nonfinite_first_pixel_of_enlarged_axis')
+                    if xa.shape[0] > 2 and not np.isfinite(xa[1:-1]).all():
+                        out.count('rebin_nonfinite_interior_pixel_of_enlarged_axis')
+                elif d[k] < x0.shape[k]:
+                    out.count('rebin_nonfinite_input_on_shrunk_axis')
+            allowed = 2 * TOL[dt] * mag
         elif dt[0] == 'f':
             ref = R.rebin_float_ref(x0, d, False)
             mag = float(np.max(np.abs(x0))) if x0.size else 0.0
